@@ -1,7 +1,7 @@
 META = {
     "level": "exploration",
     "technique": "symbolic TLA+ model of key serialisation (KeyIO.tla: file life cycle Prepare -> W_OpenCreate -> W_Serialize -> L_Load with permission bits, umask and passphrase tokens; comparison of key objects by kind) model-checked by TLC; every abstract case TLC emits is executed with real RSA/ECDSA/Ed25519 keys, real files under different umasks and real passphrases; TLC (KeyIO_Trace.tla) judges every observation with the design spec's own invariants",
-    "text": "TLC enumerates key type x target state (absent, dangling link, existing 0600/0644/0666, file object, bundled file) x umask x write passphrase x load passphrase x loader route, and all pairs of key objects (type x material x kind: generated, loaded, public bytes, certificate-bearing); each case is run on the real code (generated RSA 1024-4096 and ECDSA keys, bundled key files, seeded passphrases incl. empty/unicode/long/near-miss wrong ones); mode bits, load result, equality/hash/fingerprint are recorded and decided by the trace spec. Spec-guided exploration: abstract space exhaustive, concrete keys and passphrases sampled",
+    "text": "TLC enumerates key type x target state (absent, dangling link, existing 0600/0644/0666, file object, bundled file) x umask x write passphrase x load passphrase x loader route, and all pairs of key objects (type x material x kind: generated, loaded, public bytes, certificate-bearing with two different certificates for the same key); each case is run on the real code (generated RSA 1024-4096 and ECDSA keys, bundled key files, seeded passphrases incl. empty/unicode/long/near-miss wrong ones); mode bits, load result, equality/hash/fingerprint are recorded and decided by the trace spec. Spec-guided exploration: abstract space exhaustive, concrete keys and passphrases sampled",
     "note": "trusted: TLC, os.stat/os.umask of the running platform, `cryptography` for loading bundled roots as reference keys; the 0600 clause is asserted only for files the call creates (DESIGN Appendix F) and as 'no group/other permission bits'; the exact exception class of a failed load and the exact create mode are conformance clauses; Ed25519 has no writer in paramiko, so its round trip is bundled file -> load only",
 }
 import io
@@ -17,7 +17,7 @@ P_INVS = ["PrivateWhenCreated", "RoundTrip", "PassNeeded", "NoOtherKey", "EqOnly
 C_INVS = ["ExactCreateMode", "ExistingModeKept", "LoadInModel", "DistinctDiffer"]
 SENS = [("create_0644", "PrivateWhenCreated"), ("pass_ignored_on_write", "PassNeeded"),
         ("load_ignores_password", "PassNeeded"), ("eq_private", "EqOnlyPublic"), ("hash_private", "HashOnlyPublic"),
-        ("public_drops_type", "EqOnlyPublic")]
+        ("public_drops_type", "EqOnlyPublic"), ("eq_cert", "EqOnlyPublic")]
 BITS = [("ur", stat.S_IRUSR), ("uw", stat.S_IWUSR), ("ux", stat.S_IXUSR), ("gr", stat.S_IRGRP), ("gw", stat.S_IWGRP),
         ("gx", stat.S_IXGRP), ("or", stat.S_IROTH), ("ow", stat.S_IWOTH), ("ox", stat.S_IXOTH)]
 
@@ -192,18 +192,33 @@ class Runner:
             ways = pool.ways(root, "public_bytes")
             i = rnd.choice([i for i, w in enumerate(ways) if w != "cert_blob"])
             return pool.obtain(root, "public_bytes", i)
-        if kind == "public_cert":
-            return pool.obtain(root, "public_bytes", pool.ways(root, "public_bytes").index("cert_blob"))
-        if kind == "loaded_cert":
-            ck = ("loaded_cert", fileprov)
+        if kind in ("loaded_cert", "public_cert", "loaded_cert_b", "public_cert_b"):
+            which = "B" if kind.endswith("_b") else "A"
+            ck = (kind, fileprov if kind.startswith("loaded") else "-")
             if ck not in root.cache:
+                import paramiko
                 cls = K.key_class(t)
-                k = cls(filename=root.path, password=root.password)
-                k.load_certificate(root.cert)
-                if k.public_blob is None:
-                    raise Machinery("certificate not loaded")
-                root.cache[ck] = k
-            return root.cache[ck], root.origin + "/loaded+load_certificate"
+                ckc = ("cert", which)
+                if ckc not in root.cache:      # (source handed to load_certificate, wire blob, description)
+                    if which == "A" and root.cert:
+                        root.cache[ckc] = (root.cert, paramiko.pkey.PublicBlob.from_file(root.cert).key_blob,
+                                           "bundled certificate")
+                    else:
+                        line, blob = K.synth_cert(pool.base(root), 1 if which == "A" else 2, "cert-" + which)
+                        root.cache[ckc] = (line, blob, "synthesised certificate " + which)
+                src, blob, what = root.cache[ckc]
+                if kind.startswith("loaded"):
+                    k = cls(filename=root.path, password=root.password) if root.path else \
+                        pool._build(root, fileprov, "filename")
+                    k.load_certificate(src)
+                    how = "%s/%s+load_certificate(%s)" % (root.origin, fileprov, what)
+                else:
+                    k = cls(data=blob)
+                    how = "%s/parsed from %s blob" % (root.origin, what)
+                if k.public_blob is None or k.public_blob.key_blob != blob:
+                    raise Machinery("certificate not attached (%s)" % how)
+                root.cache[ck] = (k, how)
+            return root.cache[ck]
         raise Machinery("kind " + kind)
 
     def cmp_case(self, a, b):
@@ -226,7 +241,7 @@ class Runner:
         key = ("cmp", a["type"], a["mat"], a["kind"], b["type"], b["mat"], b["kind"])
         self.executed.add(key)
         self.c.case(key="|".join(key) + "|" + ahow + "|" + bhow,
-                    sample=info if a["kind"] == "loaded_cert" and b["kind"] == "public" and a["mat"] == b["mat"]
+                    sample=info if a["kind"] == "loaded_cert" and b["kind"] in ("public", "public_cert_b") and a["mat"] == b["mat"]
                     and a["type"] == b["type"] and len(self.c.samples) < 5 else None)
 
 
@@ -282,7 +297,7 @@ def run(c):
         cmps = r.printed("CMP")
         if not files or not cmps or not any(x[3] for x in cmps) or all(x[3] for x in cmps):
             raise Machinery("vacuous model: %d file cases, %d comparisons" % (len(files), len(cmps)))
-        # quick: one toggle, rotating with the seed; thorough: all six
+        # quick: one toggle, rotating with the seed; thorough: all seven
         for d, inv in ([SENS[c.seed % len(SENS)]] if c.quick else SENS):
             c.mc("KeyIO", cfg_text(constants={"Defects": {d}}, invariants=P_INVS), expect=inv, name="sensitivity " + d)
         reps_f, reps_c = (1, 1) if c.quick else (6, 12)
